@@ -74,7 +74,7 @@ CLAIMED = {
         tech='Lean 4 proof (mutual induction relating the value-level walk to the type-level traversal) + three-way differential run'),
     "C05": dict(
         text='Lean 4 theorems on the codec model: json_roundtrip (every integer width incl. extremes, bool, unit, Option of non-nullable types, strings without escapes, arrays, nested structs, string-tagged enums: decoding the canonical text returns the value and exactly the continuation), json_set_of_get (clean finalisation, exact byte count), postcard_roundtrip (LEB128 + zig-zag for every width, raw byte for 8 bit, bool, unit, Option, arrays, structs, enums), varint_roundtrip, write_back_identity, read_back, small_buffer_no_partial. Every run writes every sample value to every leaf, reads it back with every buffer length, writes the read text back, and does the same through postcard.'
-             ' postcard_roundtrip now covers strings of any Unicode text (UTF-8 encoder/decoder round trip proved). source_helpers_are_model: json::{set,get}_by_key and postcard::{set,get}_by_key as TRANSLATED from json.rs / postcard.rs (third-party (de)serializer abstract) equal the model's glue: write first, finalization check last, Error::Finalization wraps only the latter, the tree is what the write left.',
+             ' postcard_roundtrip now covers strings of any Unicode text (UTF-8 encoder/decoder round trip proved). source_helpers_are_model: json::{set,get}_by_key and postcard::{set,get}_by_key as TRANSLATED from json.rs / postcard.rs (third-party (de)serializer abstract) equal the model glue: write first, finalization check last, Error::Finalization wraps only the latter, the tree is what the write left.',
         note='serde-json-core / postcard / ryu are modelled, not verified (tied by the differential run). Not theorems: floats (opaque), postcard strings (UTF-8), JSON escapes.',
         tech='Lean 4 proof (digit/varint inductions, mutual induction over values) over a hand-written codec model + exhaustive-over-corpus correspondence'),
     "C12": dict(
